@@ -307,7 +307,7 @@ class Initialization:
                     comp.vals[0] = self.values[(comp.name, pop.name)]
 
     def to_excel(self, writer):
-        max_len = max(len(v) if not np.isscalar(v) else 1 for v in self.values.values())
+        max_len = max((len(v) if not np.isscalar(v) else 1 for v in self.values.values()), default=1)  # nb. a model without compartments has no values
         d = {}
         for k, v in self.values.items():
             d[k] = np.full(max_len, fill_value=np.nan)
@@ -341,12 +341,14 @@ class Initialization:
         """
         # excelfile = spreadsheet.pandas()
 
-        metadata, value_df = atomica.excel.read_dataframes(excelfile.book['Initialization'])
+        dfs = atomica.excel.read_dataframes(excelfile.book['Initialization'])
+        metadata = dfs[0]
 
         values = {}
-        for k,s in value_df.T.reset_index().T.set_index([0,1]).iterrows():
-            v = s.dropna().values
-            values[k] = v[0] if len(v) == 1 else v
+        if len(dfs) > 1:  # The table of values is absent if the model has no compartments
+            for k,s in dfs[1].T.reset_index().T.set_index([0,1]).iterrows():
+                v = s.dropna().values
+                values[k] = v[0] if len(v) == 1 else v
 
         self = cls(values)
 
